@@ -740,15 +740,31 @@ struct dirent64 *readdir64(DIR *dp) {
     step();
     char e1[PATH_MAX * 3], e2[PATH_MAX * 3];
     Node *dn = ds->node;
-    if (ds->pos >= ds->n) { logline("readdir %s -> end", enc(dn->rel, e2, sizeof e2)); errno = 0; return NULL; }
+    if (ds->pos >= ds->n) {
+        /* an error may also strike where the listing would have ended (the only place it can, in an empty directory) */
+        for (int i = 0; i < g_nfails && !ds->failed; i++) {
+            Fail *f = &g_fails[i];
+            long at = f->arg >= 0 ? f->arg : -f->arg - 1;
+            if (f->call == C_READDIR && f->ino == dn->ino && at == ds->delivered) {
+                ds->failed = 1; f->count++; logline("readdir %s @%d -> err %d inj:fail at-end", enc(dn->rel, e2, sizeof e2), ds->delivered, f->err);
+                errno = f->err; return NULL;
+            }
+        }
+        logline("readdir %s -> end", enc(dn->rel, e2, sizeof e2)); errno = 0; return NULL;
+    }
     struct dirent64 *e = &ds->ents[ds->pos];
     int isdot = !strcmp(e->d_name, ".") || !strcmp(e->d_name, "..");
     if (!isdot) {
         for (int i = 0; i < g_nfails; i++) {
             Fail *f = &g_fails[i];
             /* a bad directory block fails for every stream that reaches it (once per stream: the caller may go on reading) */
-            if (f->call == C_READDIR && f->ino == dn->ino && f->arg == ds->delivered && !ds->failed) {
-                ds->failed = 1; f->count++; logline("readdir %s @%d -> err %d inj:fail", enc(dn->rel, e2, sizeof e2), ds->delivered, f->err); errno = f->err; return NULL;
+            /* arg >= 0: the error strikes before entry number arg and the stream can be read on; arg < 0: before entry -arg-1, and
+               the rest of the listing is lost (the next call reports the end of the stream) */
+            long at = f->arg >= 0 ? f->arg : -f->arg - 1;
+            if (f->call == C_READDIR && f->ino == dn->ino && at == ds->delivered && !ds->failed) {
+                ds->failed = 1; f->count++; logline("readdir %s @%d -> err %d inj:fail%s", enc(dn->rel, e2, sizeof e2), ds->delivered, f->err, f->arg < 0 ? " then-end" : "");
+                if (f->arg < 0) ds->pos = ds->n;
+                errno = f->err; return NULL;
             }
         }
     }
